@@ -195,6 +195,25 @@ def cosim_one(args):
         for i, ch in enumerate(chans):
             if ch.is_open and (ch.rpc._request or ch.rpc._response):
                 out['problems'].append(('residue', (len(ch.rpc._request), len(ch.rpc._response)), 'chan%d' % i))
+        # a channel the broker closed is opened again: it is an ordinary channel until confirm mode is selected anew,
+        # and then its publishes are judged by the broker's answers again
+        for i, ch in enumerate(chans):
+            if ch.is_closed and conn.is_open:
+                try:
+                    ch.open()
+                    r0 = ('returned', ch.basic.publish(b'A-plain', 'rk'))
+                except amqpstorm.AMQPError as why:
+                    r0 = (type(why).__name__, getattr(why, 'error_code', None))
+                if r0 != ('returned', None):
+                    out['problems'].append(('reopened-not-confirming', r0, 'chan%d' % i))
+                    continue
+                try:
+                    ch.confirm_deliveries()
+                    r1 = (ch.basic.publish(b'A-again', 'rk'), ch.basic.publish(b'N-again', 'rk'))
+                except amqpstorm.AMQPError as why:
+                    r1 = (type(why).__name__, getattr(why, 'error_code', None))
+                if r1 != (True, False):
+                    out['problems'].append(('reopened-confirming', r1, 'chan%d' % i))
 
     ctx = vrt.run_scenario(scenario, refbroker.factory(policy), seed=seed, p_preempt=0.12, p_jump=0.1,
                            fair_time=(seed % 2 == 1), repo_path=str(common.REPO))
@@ -224,7 +243,7 @@ def check(rep):
     jobs = []
     for _ in range(80 if not thorough else 2000):
         nchan = rng.randint(1, 2)
-        workers = [[(rng.randrange(nchan), rng.choice('AANRR' if rng.random() < 0.8 else 'AANRC'), rng.choice([0, 10, 5000]))
+        workers = [[(rng.randrange(nchan), rng.choice('AANRR' if rng.random() < 0.7 else 'AANRC'), rng.choice([0, 10, 5000]))
                     for _ in range(rng.randint(1, 4))] for _ in range(rng.randint(1, 3))]
         jobs.append(({'nchan': nchan, 'workers': workers}, rng.randrange(1 << 30)))
     for (sc, seed), r in zip(jobs, par.pmap(cosim_one, jobs)):
@@ -237,6 +256,8 @@ def check(rep):
         replay = {'kind': 'cosim', 'scenario': sc, 'seed': seed}
         for p in r['problems']:
             sig = 'C13/own-outcome:%s-got-%s' % (p[0], p[1][0]) if p[0] != 'residue' else 'C13/registration-survives'
+            if p[0].startswith('reopened-'):
+                sig = 'C13/%s' % p[0]
             rep.violation(sig, 'cosim: publish with fate %s saw %r on %s' % (p[0], p[1], p[2]), replay)
             break
         if r['abort'] != 'all application threads finished':
